@@ -198,6 +198,11 @@ def run(chk, tier):
 
 
 def tiling(chk, prog):
+    """records tile the bytes: decided on the splitting loop's value-numbered summary, as an induction whose step is
+    compared with the specification as a *function of the remaining bytes* — one iteration's (record, new remainder) pair is
+    folded on representative inputs covering every ordering of (length, 4, 4 + |size|) and every kind of size prefix —
+    so it does not matter whether the code shrinks a slice, walks an offset, uses split_at_checked, min + split_at, or slice
+    patterns."""
     fn = prog.fn(SPLIT)
     if fn is None:
         chk.blind("R-LIN", SPLIT, "split_compressed_records not found")
@@ -220,42 +225,109 @@ def tiling(chk, prog):
             role["R"] = l
         elif ty.startswith("&[u8]"):
             role["S"] = l
-    if set(role) != {"R", "S"}:
-        chk.blind("R-LIN", SPLIT, "loop state is not (records, remaining bytes): %s" % [(fn.local_name(l), fn.local_ty(l)) for l in lp["tracked"]], w)
+        elif ty == "usize":
+            role["O"] = l
+    if set(role) not in ({"R", "S"}, {"R", "O"}):
+        chk.blind("R-LIN", SPLIT, "loop state is not (records, remaining bytes) or (records, offset): %s" % [(fn.local_name(l), fn.local_ty(l)) for l in lp["tracked"]], w)
         return
-    R, S = P("L%d" % role["R"]), P("L%d" % role["S"])
+    slice_form = "S" in role
+    R = P("L%d" % role["R"])
+    X = P("L%d" % role["S" if slice_form else "O"])
     e0 = lp["entry"]
-    chk.ob("R-LIN", SPLIT, listalg.seq(e0[role["R"]]) == [] and e0[role["S"]] == data, "before the loop: no records, everything remains", w, key="init")
-    empty = call("core::slice::<impl [T]>::is_empty", S)
-    prefix = ("vfld", call("core::slice::<impl [T]>::first_chunk", S), "Some", "0")
-    n = call("core::num::<impl usize>::saturating_add", cast(("un", "unsigned_abs", ("be", prefix, "i32"), "i32"), "u32", "usize"), C(4, "usize"))
-    sp = call("core::slice::<impl [T]>::split_at_checked", S, n)
-    ncase = 0
+    init_ok = listalg.seq(e0[role["R"]]) == [] and (e0[role["S"]] == data if slice_form else e0[role["O"]] == C(0, "usize"))
+    chk.ob("R-LIN", SPLIT, init_ok, "before the loop: no records, everything remains", w, key="init")
+
+    def expected(rem):
+        if len(rem) < 4:
+            return len(rem)
+        return min(4 + abs(int.from_bytes(rem[:4], "big", signed=True)), len(rem))
+    sizes = [0, 1, 2, 3, 4, 5, 6, 7, 8, 9, 255, 256, 65536, 2 ** 31 - 1, -1, -2, -3, -4, -5, -8, -(2 ** 31)]
+    rems = sorted({(sz.to_bytes(4, "big", signed=True) + bytes([bytepred.FILL]) * 9)[:n] for sz in sizes for n in range(0, 13)})
+    cases = []        # (conds, kind, piece term | None, new state term | None)
     for conds, kind, val in lp["paths"]:
         if kind == "exit:normal":
-            chk.ob("R-LIN", SPLIT, conds == ((empty, True),), "the loop ends exactly when nothing remains", w, key="exit-when-empty")
+            cases.append((conds, "exit", None, None))
         elif kind == "next":
             for c2, v in loops.split_cases(val):
-                ncase += 1
                 recs = listalg.seq(v[role["R"]])
-                rem = v[role["S"]]
-                okk = recs is not None and len(recs) == 2 and recs[0] == ("atom", R) and recs[1][0] == "elem"
                 piece = None
-                if okk:
+                if recs is not None and len(recs) == 2 and recs[0] == ("atom", R) and recs[1][0] == "elem":
                     r = recs[1][1]
-                    okk = r[0] == "adt" and r[1] == V + "record::Record" and r[3][0][1][0] == "adt" and r[3][0][1][2] == "Borrowed"
-                    piece = r[3][0][1][3][0][1] if okk else None
-                # content conservation: piece ++ remaining' == remaining
-                whole = piece == S and rem[0] == "array" and not rem[1]
-                split = piece == fld(("vfld", sp, "Some", "0"), "0") and rem == fld(("vfld", sp, "Some", "0"), "1")
-                chk.ob("R-LIN", SPLIT, bool(okk and (whole or split)), "one record is appended whose bytes followed by the new remainder are the old remainder (%s)" % ("whole remainder" if whole else "split at 4 + |size|"),
-                       w, key="step#%d" % ncase)
-                if split and not whole:
-                    took = any(len(c) == 3 and c[0] == ("discr", sp) and c[2] == ((1, 1),) for c in c2)
-                    chk.ob("VN", SPLIT, took, "the split point is 4 + unsigned_abs(i32_be(first four bytes)), saturating", w, key="record-length")
+                    if r[0] == "adt" and r[1] == V + "record::Record" and r[3][0][1][0] == "adt" and r[3][0][1][2] == "Borrowed":
+                        piece = r[3][0][1][3][0][1]
+                cases.append((tuple(conds) + tuple(c2), "next", piece, v[role["S" if slice_form else "O"]]))
         else:
             chk.ob("R-LIN", SPLIT, False, "the loop can be left in an unexpected way (%s)" % kind, w, key="exit:" + kind)
-    chk.floor("splitting cases", ncase, 3)
+    chk.floor("splitting cases", sum(1 for c in cases if c[1] == "next"), 2)
+    bad, undecided, n_worlds = None, None, 0
+    prefixes = [b""] if slice_form else [b"", b"\x00\x00\x01"]
+    for pre in prefixes:
+        for rem in rems:
+            n_worlds += 1
+            whole = pre + rem
+            wd = bytepred.World(len(rem), {})
+            wd.bytes = rem if slice_form else whole
+            wd.len = len(wd.bytes)
+            it = bytepred.Interp(X if slice_form else data, wd, ints=None if slice_form else {X: len(pre)})
+            it.chunk_n = 4
+            live = []
+            try:
+                for conds, kind, piece, nxt in cases:
+                    okc = True
+                    for c in conds:
+                        try:
+                            if len(c) == 2:
+                                r = it.ev(c[0])
+                                if not isinstance(r, bool):
+                                    raise bytepred.Unknown("condition %s" % show(c[0])[:80])
+                                okc = okc and (r == c[1])
+                            else:
+                                v = it.iv(c[0])
+                                okc = okc and any(lo <= v <= hi for lo, hi in c[2])
+                        except bytepred.Undefined:
+                            okc = False
+                        if not okc:
+                            break
+                    if okc:
+                        live.append((kind, piece, nxt))
+                if len(live) != 1:
+                    bad = "on remaining bytes %r %d cases apply" % (rem, len(live))
+                    break
+                kind, piece, nxt = live[0]
+                if kind == "exit":
+                    if len(rem) != 0:
+                        bad = "the loop ends although %r remains" % rem
+                        break
+                    continue
+                if len(rem) == 0:
+                    bad = "the loop continues with nothing left"
+                    break
+                if piece is None:
+                    bad = "an iteration does not append exactly one borrowed record"
+                    break
+                k = expected(rem)
+                pb = it.sv(piece)
+                if slice_form:
+                    rest = it.sv(nxt)
+                    okk = pb + rest == rem and len(pb) == k
+                else:
+                    o2 = it.iv(nxt)
+                    okk = pb == rem[:k] and o2 == len(pre) + k
+                if not okk:
+                    bad = "on remaining bytes %r the record is %r (expected the first %d bytes) and %s" % (rem, pb, k, ("the remainder %r" % rest) if slice_form else ("the offset becomes %d" % o2))
+                    break
+            except (bytepred.Unknown, bytepred.Undefined) as e:
+                undecided = "%s: %s on %r" % (type(e).__name__, e, rem)
+                break
+        if bad or undecided:
+            break
+    if undecided:
+        chk.blind("R-LIN", SPLIT, "the iteration step could not be folded: %s" % undecided, w)
+    else:
+        chk.ob("R-LIN", SPLIT, bad is None, "each iteration appends one record = the first min(len, 4 + |i32_be(prefix)|) remaining bytes (all of them when no prefix fits) and keeps exactly the "
+               "rest; the loop ends exactly when nothing remains (%d representative remainders: every ordering of length, 4 and 4 + |size|, positive, negative and extreme sizes)" % n_worlds if bad is None else
+               "records do not tile the bytes: %s" % bad, w, key="step")
+    chk.notes["tiling representatives"] = n_worlds
     try:
         ret = loops.exit_value(prog, fn, lp)
         expect(chk, "R-WIRE", SPLIT, ret, R, w, "returns the records in order")
